@@ -69,7 +69,7 @@ SitesBuiltin == <<
 \* for the others the namespaces without partner, the first pair with an irregular key, Talk and Template,
 \* as written in the table, as page title and as argument
 \* (a site that is not "wide" -- the bulk of the shipped tables in the thorough tier -- gets the spellings
-\*  of the table only and, for the other names, the namespaces that have no partner)
+\*  of the table only and, for the other names, the non-negative namespaces that have no partner)
 Full(name) == name \in NsFns
 Wide(s) == Sites[s].wide
 NoPartner(s, j) == Negative(s, j) \/ NoTalkPartner(s, j) \/ NoSubject(s, j)
@@ -77,20 +77,20 @@ FirstIrregular(s, j) == IrregularKey(s, j) /\ \A k \in DOMAIN Tab(s) : Irregular
 NsSel(name, s) == IF Full(name) THEN DOMAIN Tab(s)
                   ELSE IF Wide(s) THEN {j \in DOMAIN Tab(s) : NoPartner(s, j) \/ E(s, j).id \in {1, 10, 11} \/ FirstIrregular(s, j)
                                                                \/ (E(s, j).istalk /\ ~NoSubject(s, j) /\ FirstIrregular(s, SubjectIdx(s, j)))}
-                  ELSE {j \in DOMAIN Tab(s) : NoPartner(s, j)}
+                  ELSE {j \in DOMAIN Tab(s) : NoTalkPartner(s, j) \/ NoSubject(s, j)}
 FormSel(name, s, j) == IF ~Full(name) THEN {"key"} ELSE IF Wide(s) THEN FormsOf(s, j) ELSE FormsOf(s, j) \ {"lower", "alias"}
 PosSel(name, s, j, form) ==
   IF ~Full(name) THEN {"title", "arg"}
   ELSE IF Wide(s) THEN (IF form = "key" THEN Positions ELSE Positions \ {"argid"})
   ELSE IF form = "key" /\ Structural(s, j) THEN Positions ELSE {"title", "arg"}
-PseudoForms(s) == IF Wide(s) THEN {"bare", "unknown"} ELSE {"unknown"}
+PseudoForms(name, s) == IF Wide(s) THEN {"bare", "unknown"} ELSE IF Full(name) THEN {"unknown"} ELSE {}
 StS(ph, name, s, j, form, pos) == [ph |-> ph, name |-> name, s |-> s, j |-> j, form |-> form, pos |-> pos]
 InitS == x = StS("root", "", 0, 0, "none", "none")
 \* (#invoke does not look at titles: it stays in the first universe)
 PickNameSite == x.ph = "root" /\ \E n \in Names \ {"#invoke"}, s \in DOMAIN Sites : x' = StS("fn", n, s, 0, "none", "none")
 MakeCallS == x.ph = "fn" /\ (\/ \E j \in NsSel(x.name, x.s) : \E form \in FormSel(x.name, x.s, j) : \E pos \in PosSel(x.name, x.s, j, form) :
                                    x' = StS("call", x.name, x.s, j, form, pos)
-                             \/ \E form \in PseudoForms(x.s), pos \in {"title", "arg"} : x' = StS("call", x.name, x.s, 0, form, pos))
+                             \/ \E form \in PseudoForms(x.name, x.s), pos \in {"title", "arg"} : x' = StS("call", x.name, x.s, 0, form, pos))
 NextS == PickNameSite \/ MakeCallS
 SpecS == InitS /\ [][NextS]_x
 
